@@ -108,6 +108,90 @@ theorem feasibleC_iff (c : Cmp) (i : Inst) (as : List Nat) :
 theorem feasible_iff (i : Inst) (as : List Nat) : feasible i as = true ↔ Feasible i as :=
   feasibleC_iff .le i as
 
+/-! ### the set of solutions the shipped checker accepts, described independently of its code
+
+`check_solution_validity` differs from `Feasible` in exactly three documented ways (C06 findings): it never looks at
+the linehaul/backhaul order; it applies the depot deadline to every leg INTO the depot, also for open routes; and it
+only replays the legs listed in the action list, so the way back of the trailing route (the one not followed by a
+depot visit) is tested neither against the distance limit nor against the depot deadline.  `Accepted` is `Feasible`
+with precisely these three changes; `Rl4co.Mtvrp.check_iff` proves that it IS the accepted set. -/
+
+/-- a route followed by a depot visit in the action list -/
+structure ClosedOk (i : Inst) (r : List Nat) : Prop where
+  loadL : (r.map i.dL).sum ≤ i.cap
+  loadB : (r.map i.dB).sum ≤ i.cap
+  dist  : within .le (routeDist i r) i.limit = true
+  time  : timeOk .le { i with openR := false } 0 0 r = true
+
+/-- the trailing route (not followed by a depot visit): its way back is not looked at -/
+structure TrailOk (i : Inst) (r : List Nat) : Prop where
+  loadL : (r.map i.dL).sum ≤ i.cap
+  loadB : (r.map i.dB).sum ≤ i.cap
+  dist  : within .le (pathLen i.D (0 :: r)) i.limit = true
+  time  : timeOk .le { i with openR := true } 0 0 r = true
+
+structure Accepted (i : Inst) (as : List Nat) : Prop where
+  range  : ∀ a ∈ as, a ≤ i.n
+  once   : ∀ j, 1 ≤ j → j ≤ i.n → as.count j = 1
+  closed : ∀ r ∈ (routes as).dropLast, r ≠ [] → ClosedOk i r
+  trail  : ∀ r, (routes as).getLast? = some r → r ≠ [] → TrailOk i r
+
+/-! executable version of `Accepted` (run-time oracle: the real checker's verdict must equal it) -/
+
+def closedOkB (i : Inst) (r : List Nat) : Bool :=
+  decide ((r.map i.dL).sum ≤ i.cap) && decide ((r.map i.dB).sum ≤ i.cap)
+  && within .le (routeDist i r) i.limit && timeOk .le { i with openR := false } 0 0 r
+def trailOkB (i : Inst) (r : List Nat) : Bool :=
+  decide ((r.map i.dL).sum ≤ i.cap) && decide ((r.map i.dB).sum ≤ i.cap)
+  && within .le (pathLen i.D (0 :: r)) i.limit && timeOk .le { i with openR := true } 0 0 r
+
+def acceptedB (i : Inst) (as : List Nat) : Bool :=
+  onceB i as && (routes as).dropLast.all (fun r => r.isEmpty || closedOkB i r)
+  && (match (routes as).getLast? with
+      | some r => r.isEmpty || trailOkB i r
+      | none => true)
+
+theorem acceptedB_iff (i : Inst) (as : List Nat) : acceptedB i as = true ↔ Accepted i as := by
+  have hc : ∀ r, closedOkB i r = true ↔ ClosedOk i r := by
+    intro r
+    simp only [closedOkB, Bool.and_eq_true, decide_eq_true_eq]
+    exact ⟨fun ⟨⟨⟨a, b⟩, c⟩, d⟩ => ⟨a, b, c, d⟩, fun ⟨a, b, c, d⟩ => ⟨⟨⟨a, b⟩, c⟩, d⟩⟩
+  have ht : ∀ r, trailOkB i r = true ↔ TrailOk i r := by
+    intro r
+    simp only [trailOkB, Bool.and_eq_true, decide_eq_true_eq]
+    exact ⟨fun ⟨⟨⟨a, b⟩, c⟩, d⟩ => ⟨a, b, c, d⟩, fun ⟨a, b, c, d⟩ => ⟨⟨⟨a, b⟩, c⟩, d⟩⟩
+  simp only [acceptedB, onceB, Bool.and_eq_true, List.all_eq_true, decide_eq_true_eq, List.mem_range,
+    beq_iff_eq, Bool.or_eq_true, List.isEmpty_iff]
+  constructor
+  · rintro ⟨⟨⟨h1, h2⟩, h3⟩, h4⟩
+    refine ⟨h1, ?_, ?_, ?_⟩
+    · intro j hj1 hj2
+      have := h2 (j - 1) (by omega)
+      rwa [Nat.sub_add_cancel hj1] at this
+    · intro r hr hne
+      rcases h3 r hr with h | h
+      · exact absurd h hne
+      · exact (hc r).1 h
+    · intro r hr hne
+      rw [hr] at h4
+      simp only [Bool.or_eq_true, List.isEmpty_iff] at h4
+      rcases h4 with h | h
+      · exact absurd h hne
+      · exact (ht r).1 h
+  · rintro ⟨h1, h2, h3, h4⟩
+    refine ⟨⟨⟨h1, fun k hk => h2 (k + 1) (by omega) (by omega)⟩, ?_⟩, ?_⟩
+    · intro r hr
+      by_cases hne : r = []
+      · exact Or.inl hne
+      · exact Or.inr ((hc r).2 (h3 r hr hne))
+    · cases hl : (routes as).getLast? with
+      | none => rfl
+      | some r =>
+        simp only [Bool.or_eq_true, List.isEmpty_iff]
+        by_cases hne : r = []
+        · exact Or.inl hne
+        · exact Or.inr ((ht r).2 (h4 r hl hne))
+
 /-- cost of one route: depot → customers (→ depot unless routes are open); empty routes cost nothing -/
 def routeCost (i : Inst) (r : List Nat) : Int := if r = [] then 0 else routeDist i r
 
